@@ -2,4 +2,7 @@ INIT TInit
 NEXT TNext
 CONSTANTS
   HandlerStacks <- Empty
+  AddShapes <- Empty
+  MaxAdds = 99
+  MaxCycles = 99
 INVARIANT Sound
